@@ -300,7 +300,10 @@ def _run_mutant(m: dict) -> dict:
         ok = any(r == m["expect_rule"] for _, r, _ in fired)
     else:
         ok = bool(fired)
-    res["status"] = "killed" if ok else "survived"
+    # a change that restructures the code it breaks is answered with "this rule no longer knows the
+    # function, re-validate" (analysis error, exit 2): the check fails, but it does not claim a violation
+    undecided = any("validated tree" in e or "restructured" in e or "reshaped" in e for e in res["errors"])
+    res["status"] = "killed" if ok else ("undecided" if undecided else "survived")
     return res
 
 
@@ -347,6 +350,7 @@ def run(props: Optional[List[str]] = None, jobs: int = 16, verbose: bool = True)
         nres = list(ex.map(_run_neutral, [(k, nprops) for k in NEUTRAL_KINDS]))
     killed = [r for r in mres if r["status"] == "killed"]
     survived = [r for r in mres if r["status"] == "survived"]
+    undecided = [r for r in mres if r["status"] == "undecided"]
     stale = [r for r in mres if r["status"] == "stale"]
     errors = [r for r in mres if r["status"] == "error"]
     alarms = [r for r in nres if r["status"] != "silent"]
@@ -359,7 +363,9 @@ def run(props: Optional[List[str]] = None, jobs: int = 16, verbose: bool = True)
             print(f"SELFTEST mutant stale (anchor gone): {r['id']}")
         for r in alarms:
             print(f"SELFTEST neutral variant raised an alarm: {r['id']} fired={r['fired'][:3]} errors={r['errors'][:2]}")
-        print(f"SELFTEST mutants: {len(killed)} killed, {len(survived)} survived, {len(stale)} stale, {len(errors)} errors; "
+        for r in undecided:
+            print(f"SELFTEST mutant undecided (restructuring gate, exit 2): {r['id']} {r['errors'][0][:150] if r['errors'] else ''}")
+        print(f"SELFTEST mutants: {len(killed)} killed, {len(undecided)} undecided (exit 2, no verdict), {len(survived)} survived, {len(stale)} stale, {len(errors)} errors; "
               f"neutral variants: {len(nres) - len(alarms)}/{len(nres)} silent")
     code = 0 if not survived and not errors and not alarms else 2
     extra = {
@@ -367,6 +373,7 @@ def run(props: Optional[List[str]] = None, jobs: int = 16, verbose: bool = True)
             "mutants_total": len(mres),
             "mutants_killed": len(killed),
             "mutants_survived": [r["id"] for r in survived],
+            "mutants_undecided": [r["id"] for r in undecided],
             "mutants_stale": [r["id"] for r in stale],
             "neutral_variants": {r["id"]: r["status"] for r in nres},
             "samples": [{"mutant": r["id"], "fired": r["fired"][:2]} for r in killed[:6]],
